@@ -169,6 +169,49 @@ def check_lz(case, ctx):
     check_path({"parent": p, "path": [found]}, ctx)
 
 
+# ---------------------------------------------------------------------------- public derivation from several threads
+def check_threads(case, ctx):
+    from vlib.sched import Scheduler
+    import btc_hd_wallet.bip32 as m32
+    import btc_hd_wallet.keys as mk
+    import btc_hd_wallet.helper as mh
+    Prv, Pub = _impl()
+    parents_ = [case["parent"]] + ([dict(case["parent"], k=S.N - case["parent"]["k"])] if case["two_parents"] else [])
+    roots = []
+    for p in parents_:
+        rp = ref_parent(p)
+        roots.append((rp.neuter(), Pub(key=rp.sec(), chain_code=p["c"], index=p["index"], depth=min(p["depth"], 250),
+                                       testnet=p["testnet"], parent_fingerprint=p["pfp"])))
+
+    def runner(t, idxs):
+        rref, root = roots[t % len(roots)]
+
+        def run():
+            out = []
+            for i in idxs:
+                st_, ch = call(root.ckd, i)
+                out.append((bytes(ch.key), bytes(ch.chain_code), ch.index) if st_ == "ok" else ("EXC", repr(ch)))
+            return out
+        return run
+    sched = Scheduler([tuple(x) for x in case["plan"]], [m32.__file__, mk.__file__, mh.__file__])
+    results, errors = sched.run([runner(t, idxs) for t, idxs in enumerate(case["threads"])])
+    ctx.count("switches", sched.switches)
+    ctx.nontrivial = sched.switches >= 2
+    for t, idxs in enumerate(case["threads"]):
+        if t in errors:
+            raise Violation("C02/threads/crashed", "thread %d raised %r" % (t, errors[t]))
+        rref = roots[t % len(roots)][0]
+        rref = R.Node(None, rref.pt, rref.c, min(case["parent"]["depth"], 250), rref.index, rref.pfp)
+        for j, i in enumerate(idxs):
+            try:
+                want = R.ckd_pub(rref, i)
+            except R.Invalid:
+                continue
+            if results[t][j] != (want.sec(), want.c, i):
+                raise Violation("C02/threads/child-differs", "with %d threads deriving publicly at once, child %d of thread %d "
+                                "is %r, expected key %s" % (len(case["threads"]), i, t, results[t][j], want.sec().hex()))
+
+
 def clauses():
     return [
         Clause("path", check_path,
@@ -191,6 +234,15 @@ def clauses():
                    "hard": S.hardened_indexes(), "suffix": st.lists(S.normal_indexes(), max_size=2)}),
                classes=lambda c: ["boundary" if c["hard"] in (H, H + 1, 2 ** 32 - 1) else "uniform"],
                n={"quick": 1500, "thorough": 40000}, shards={"quick": 16, "thorough": 16}),
+        Clause("threads", check_threads,
+               "2..3 threads derive 1..3 normal children each from one shared public node (or from the two nodes k / n-k) "
+               "under the deterministic line-granularity scheduler (bip32.py, keys.py, helper.py traced); every child must "
+               "equal independent CKDpub; non-trivial = >= 2 thread switches (measured)",
+               gen=lambda tier: st.fixed_dictionaries({
+                   "parent": parents(), "two_parents": st.booleans(),
+                   "threads": st.lists(st.lists(S.normal_indexes(), min_size=1, max_size=3), min_size=2, max_size=3),
+                   "plan": st.lists(st.tuples(st.integers(0, 2), st.integers(1, 10)), min_size=3, max_size=50)}),
+               n={"quick": 200, "thorough": 8000}, shards={"quick": 16, "thorough": 16}),
         Clause("leading-zero-children", check_lz,
                "for fixed parents the reference searches the first index whose child public key has a leading zero "
                "byte in x (1 in 256) and that child is derived publicly, then derived from again",
